@@ -141,6 +141,11 @@ theorem packTextureG_nil (hdr : Bytes) (mips : List (List Block)) :
     lodTableG_nogap _ (withGaps_nil_nogap mips), gappedBody_nogap _ (withGaps_nil_nogap mips),
     withGaps_map_snd]
 
+theorem textureGWf_nil (hdr : Bytes) (mips : List (List Block)) :
+    textureGWf hdr mips [] = textureWf hdr mips := by
+  simp only [textureGWf, gappedBody_nogap _ (withGaps_nil_nogap mips), withGaps_map_snd, textureWf,
+    Bool.and_assoc, Bool.and_self]
+
 /-! ### the gapped entry -/
 
 theorem packTextureG_eq (hdr : Bytes) (mips : List (List Block)) (gaps : List Bytes) (rest : Bytes) :
